@@ -1048,6 +1048,7 @@ struct KcIn
   std::vector<MatrixRectangular> Sigma0, Sigma0S, X0;
   int neq = 0;
   double kappaSigma = 0.;
+  double kappaDrift = 1.; // conditioning of X' inv(Sigma) X: the calculator estimates the drift from the data alone
 };
 static const double kZScale = 2., kCovScale = 4.;
 static bool buildKcIn(const KCase& c, Db* dbin, Db* dbout, Ctx& ctx, KcIn& in)
@@ -1095,9 +1096,20 @@ static bool buildKcIn(const KCase& c, Db* dbin, Db* dbout, Ctx& ctx, KcIn& in)
   Eigen::MatrixXd S(in.neq, in.neq);
   for (int i = 0; i < in.neq; i++)
     for (int j = 0; j < in.neq; j++) S(i, j) = in.Sigma.getValue(i, j);
-  Eigen::JacobiSVD<Eigen::MatrixXd> svd(S);
+  Eigen::JacobiSVD<Eigen::MatrixXd> svd(S, Eigen::ComputeThinU | Eigen::ComputeThinV);
   double smin = svd.singularValues()(in.neq - 1);
   in.kappaSigma = smin > 0 ? svd.singularValues()(0) / smin : INFINITY;
+  if (in.hasX && in.kappaSigma < 1e12)
+  {
+    int nf = in.X.getNCols();
+    Eigen::MatrixXd Xm(in.neq, nf);
+    for (int i = 0; i < in.neq; i++)
+      for (int j = 0; j < nf; j++) Xm(i, j) = in.X.getValue(i, j);
+    Eigen::MatrixXd Q = Xm.transpose() * svd.solve(Xm);
+    Eigen::JacobiSVD<Eigen::MatrixXd> sq(Q);
+    double qmin = sq.singularValues()(nf - 1);
+    in.kappaDrift = qmin > 0 ? sq.singularValues()(0) / qmin : INFINITY;
+  }
   return true;
 }
 static GenOpt optKc()
@@ -1159,7 +1171,7 @@ static void runKc(const KcCase& kc, Ctx& ctx, bool dual)
   double eta = etaIn(c);
   std::vector<Sys> sys((size_t)nt);
   for (int k = 0; k < nt; k++) orc.o->solve(k, pointGeom(c.ndim, c.targ.p(k)), all, sys[(size_t)k]);
-  if (!(in.kappaSigma <= kKappaMax)) { ctx.inconclusive("ill-conditioned"); return; }
+  if (!(in.kappaSigma <= kKappaMax) || !(in.kappaDrift <= kKappaMax)) { ctx.inconclusive("ill-conditioned"); return; }
 
   std::string P = dual ? "kcalc-dual" : "kcalc";
   KrigingCalcul kcal(dual);
@@ -1208,7 +1220,7 @@ static void runKc(const KcCase& kc, Ctx& ctx, bool dual)
     if (op == 2 && !wantVarz) continue;
     const Sys& S = sys[(size_t)k];
     if (!S.solved || !(S.kappa <= kKappaMax)) { nIll++; continue; }
-    double kap = std::max(S.kappa, in.kappaSigma);
+    double kap = std::max(std::max(S.kappa, in.kappaSigma), in.kappaDrift);
     ctx.at(P + (op == 0 ? ":getEstimation" : (op == 1 ? ":getStdv" : ":getVarianceZstar")));
     VectorDouble got = (op == 0) ? kcal.getEstimation() : (op == 1 ? kcal.getStdv() : kcal.getVarianceZstar());
     const char* what = (op == 0) ? "estimation" : (op == 1 ? "stdv" : "varZ*");
@@ -1222,13 +1234,14 @@ static void runKc(const KcCase& kc, Ctx& ctx, bool dual)
     for (int tv = 0; tv < nv; tv++)
     {
       size_t q = (size_t)(k * nv + tv);
-      Tol t = tolOf(S, eta, tv, in.kappaSigma);
+      Tol t = tolOf(S, eta, tv, std::max(in.kappaSigma, in.kappaDrift));
       double m = in.means[tv];
       double expd;
       LD tol;
       if (op == 0) { expd = zs ? m + kZScale * (R.est[q] - m) : R.est[q]; tol = t.e * (zs ? kZScale : 1.) * 5; }
       else if (op == 1) { expd = cs ? std::sqrt(kCovScale) * R.sd[q] : R.sd[q]; tol = t.v * (cs ? kCovScale : 1.) * 5; }
       else { expd = cs ? kCovScale * R.vz[q] : R.vz[q]; tol = t.v * (cs ? kCovScale : 1.) * 5; }
+      if (getenv("C04_DEBUG")) diag(fmt("DBG k %d op %d tv %d zs %d cs %d got %.15g exp %.15g oracle est %.15Lg var %.15Lg kS %.3g kD %.3g kA %.3g", k, op, tv, (int)zs, (int)cs, got[tv], expd, S.estim[(size_t)tv], S.var[(size_t)tv], in.kappaSigma, in.kappaDrift, S.kappa));
       if (!cmpVal(ctx, key, what, k, tv, got[tv], expd, tol, kap, op == 1)) return;
     }
   }
@@ -1264,7 +1277,7 @@ static void runKcLambda(const KcCase& kc, Ctx& ctx)
   std::string V = c.family();
   KcIn in;
   if (!buildKcIn(c, w.dbin.get(), w.dbout.get(), ctx, in)) return;
-  if (!(in.kappaSigma <= kKappaMax)) { ctx.inconclusive("ill-conditioned"); return; }
+  if (!(in.kappaSigma <= kKappaMax) || !(in.kappaDrift <= kKappaMax)) { ctx.inconclusive("ill-conditioned"); return; }
   int k = (nt == 1) ? 0 : 1 + (int)(kc.ops.size() % (size_t)(nt - 1)); // krigtest(iech0 = 0) loops over all targets
   Orc orc;
   if (!makeOracle(c, w.dbout.get(), orc)) { ctx.fail("harness:model", "oracle model"); return; }
@@ -1273,7 +1286,7 @@ static void runKcLambda(const KcCase& kc, Ctx& ctx)
   if (!S.solved || !(S.kappa <= kKappaMax)) { ctx.inconclusive("ill-conditioned"); return; }
   ctx.at("krigtest:reference:" + V);
   Krigtest_Res kt = krigtest(w.dbin.get(), w.dbout.get(), w.model.get(), w.neigh.get(), k, EKrigOpt::POINT, VectorInt(), false, false);
-  if (kt.wgt.getNRows() != S.N || kt.wgt.getNCols() != nv || S.nu != in.neq) { ctx.fail("harness:kcalc-lambda", fmt("krigtest weights %dx%d, system %d, calculator %d equations", kt.wgt.getNRows(), kt.wgt.getNCols(), S.N, in.neq)); return; }
+  if (kt.wgt.getNRows() != S.N || kt.wgt.getNCols() != nv || S.nu != in.neq) { ctx.fail("harness:kcalc-lambda", fmt("krigtest weights %dx%d, system %d (%d covariance rows), calculator %d equations", kt.wgt.getNRows(), kt.wgt.getNCols(), S.N, S.nu, in.neq)); return; }
   KrigingCalcul kcal(false);
   ctx.at("kcalc:setters");
   if (kcal.setData(&in.Z, &in.means) || kcal.setLHS(&in.Sigma, in.hasX ? &in.X : nullptr) || kcal.setRHS(&in.Sigma0[(size_t)k], in.hasX ? &in.X0[(size_t)k] : nullptr) || kcal.setVar(&in.Sigma00))
@@ -1294,7 +1307,7 @@ static void runKcLambda(const KcCase& kc, Ctx& ctx)
     return;
   }
   if (L->getNRows() != in.neq || L->getNCols() != nv) { ctx.fail("kcalc:lambda:dims", fmt("getLambda() is %dx%d for %d equations and %d variables", L->getNRows(), L->getNCols(), in.neq, nv)); return; }
-  double kap = std::max(S.kappa, in.kappaSigma);
+  double kap = std::max(std::max(S.kappa, in.kappaSigma), in.kappaDrift);
   double eta = etaIn(c);
   for (int tv = 0; tv < nv; tv++)
   {
@@ -1526,6 +1539,8 @@ static void runKcCcX(const CcCase& cc, Ctx& ctx, bool reuse)
   KcIn in;
   if (!buildKcIn(c, w.dbin.get(), w.dbout.get(), ctx, in)) return;
   if (!(in.kappaSigma <= kKappaMax)) { ctx.inconclusive("ill-conditioned"); return; }
+  // the collocated formulae of the calculator estimate the drift from the ordinary data alone: their domain
+  if (!(in.kappaDrift <= 1e8)) { ctx.inconclusive("drift-not-estimable-from-data-alone"); return; }
   double eta = etaIn(c);
   // reuse: one calculator for all targets (lazy cache across setRHS / setColCokUnique); otherwise a new one per target
   std::unique_ptr<KrigingCalcul> kown;
@@ -1578,7 +1593,7 @@ static void runKcCcX(const CcCase& cc, Ctx& ctx, bool reuse)
     if (!S.solved || !(S.kappa <= kKappaMax)) { nIll++; continue; }
     nChecked++;
     if (any) nCol++;
-    double kap = std::max(S.kappa, in.kappaSigma);
+    double kap = std::max(std::max(S.kappa, in.kappaSigma), in.kappaDrift);
     std::vector<int> ops = cc.ops;
     for (int q = 0; q < 3; q++) ops.push_back(q);
     for (int op : ops)
@@ -1591,7 +1606,7 @@ static void runKcCcX(const CcCase& cc, Ctx& ctx, bool reuse)
       if ((int)got.size() != nv) { ctx.fail(key + ":size", fmt("%s: %d values returned for %d variables (target %d, %d collocated values)", what, (int)got.size(), nv, k, (int)ranks.size())); return; }
       for (int tv = 0; tv < nv; tv++)
       {
-        Tol t = tolOf(S, eta, tv, in.kappaSigma);
+        Tol t = tolOf(S, eta, tv, std::max(in.kappaSigma, in.kappaDrift));
         double expd = (op == 0) ? B.est[(size_t)tv] : (op == 1 ? B.sd[(size_t)tv] : B.vz[(size_t)tv]);
         if (getenv("C04_DEBUG")) diag(fmt("DBG k %d op %d tv %d got %.15g ref %.15g oracle est %.15Lg var %.15Lg varz %.15Lg", k, op, tv, got[tv], expd, S.estim[(size_t)tv], S.var[(size_t)tv], S.varz[(size_t)tv]));
         if (!cmpVal(ctx, key, what, k, tv, got[tv], expd, 5 * (op == 0 ? t.e : t.v), kap, op == 1)) return;
@@ -1680,9 +1695,9 @@ static void runKcXv(const XvCase& xc, Ctx& ctx)
   if (!buildWorld(c, w, ctx)) return;
   KcIn in;
   if (!buildKcIn(c, w.dbin.get(), w.dbout.get(), ctx, in)) return;
-  if (!S.solved || !(S.kappa <= kKappaMax) || !(in.kappaSigma <= kKappaMax)) { ctx.inconclusive("ill-conditioned"); return; }
+  if (!S.solved || !(S.kappa <= kKappaMax) || !(in.kappaSigma <= kKappaMax) || !(in.kappaDrift <= kKappaMax)) { ctx.inconclusive("ill-conditioned"); return; }
   double eta = etaIn(c);
-  double kap = std::max(S.kappa, in.kappaSigma);
+  double kap = std::max(std::max(S.kappa, in.kappaSigma), in.kappaDrift);
   KrigingCalcul kcal(false);
   ctx.at("kcalc-xvalid:setters");
   if (kcal.setData(&in.Z, &in.means) || kcal.setLHS(&in.Sigma, in.hasX ? &in.X : nullptr) || kcal.setVar(&in.Sigma00))
@@ -1705,7 +1720,7 @@ static void runKcXv(const XvCase& xc, Ctx& ctx)
     for (int q = 0; q < nx; q++)
     {
       int tv = evars[q];
-      Tol t = tolOf(S, eta, tv, in.kappaSigma);
+      Tol t = tolOf(S, eta, tv, std::max(in.kappaSigma, in.kappaDrift));
       double expd = (op == 0) ? B.est[(size_t)tv] : (op == 1 ? B.sd[(size_t)tv] : B.vz[(size_t)tv]);
       if (!cmpVal(ctx, key, what, i0, tv, got[q], expd, 10 * (op == 0 ? t.e : t.v), kap, op == 1)) return;
     }
